@@ -212,7 +212,7 @@ def r3(ctx):
 
 def closure_cases(cl):
     """[(returned value string, sorted guard strings)] of an index-map closure."""
-    return sorted((v, tuple(sorted(cl.guard_strings(s.bb)))) for s, v in ret_assigns(cl))
+    return sorted((v, tuple(sorted(guards_S(cl, s.bb)))) for s, v in ret_assigns(cl))
 
 
 def r4(ctx):
@@ -240,10 +240,11 @@ def r4(ctx):
         ctx.guard(b, s, 'square', fact_cmp('Eq', r'^self\.rows$', r'^self\.cols$'), key='splice_square|Ok|is-square')
     cl = one(P.closures_of(b), 'splice_square closure')
     rets = [v for _, v in ret_assigns(cl)]
-    ctx.check('splice_square|reads', rets == ['Matrix::index(self, (row{(row + length) | row}, col{(col + length) | col}))'], 'reads %s' % rets, sample=rets)
-    for nm in ('row', 'col'):
-        idx = [i for i, l in enumerate(cl.locals) if l.get('name') == nm and cl.defs().get(i)]
-        got = sorted((S(cl._def_term(d, ())), tuple(cl.guard_strings(d[0]))) for i in idx for d in cl.defs()[i])
+    ctx.check('splice_square|reads', len(rets) == 1 and re.match(r'^Matrix::index\(self, \(\w+\{\(row \+ length\) \| row\}, \w+\{\(col \+ length\) \| col\}\)\)$', rets[0]) is not None, 'reads %s' % rets, sample=rets)
+    shadows = [i for i, l in enumerate(cl.locals) if i > cl.arg_count and l.get('user') and len(cl.defs().get(i) or []) == 2]
+    ctx.check('splice_square|two-shifted-indices', len(shadows) == 2, 'shifted index variables found: %d' % len(shadows), sample=len(shadows))
+    for nm, idx in zip(('row', 'col'), [[i] for i in shadows]):
+        got = sorted((S(cl._def_term(d, ())), tuple(guards_S(cl, d[0]))) for i in idx for d in cl.defs()[i])
         want = sorted([(nm, ('(%s < start)' % nm,)), ('(%s + length)' % nm, ('(%s >= start)' % nm,))])
         ctx.check('splice_square|%s-map' % nm, got == want, '%s map %s' % (nm, got), sample=[g[0] for g in got])
     # extend_vec
@@ -251,7 +252,7 @@ def r4(ctx):
     oks = [(s, v) for s, v in ret_assigns(b) if v.startswith('Result::Ok')]
     ctx.check('extend_vec|Ok', len(oks) == 1 and oks[0][1] == 'Result::Ok{0: Matrix::new_vec((Matrix::rows(self) + ROWS), closure:matrix::{impl#1}::extend_vec::{closure#0})}', 'returns %s' % [v for _, v in oks], sample=len(oks))
     cs = closure_cases(one(P.closures_of(b), 'extend_vec closure'))
-    want = sorted([('Matrix::index(self, (row, 0))', ('(row < original_rows)',)), ('values[(row - original_rows)]', ('(row >= original_rows)',))])
+    want = sorted([('Matrix::index(self, (row, 0))', ('(row < Matrix::rows(self))',)), ('values[(row - Matrix::rows(self))]', ('(row >= Matrix::rows(self))',))])
     ctx.check('extend_vec|index-map', cs == want, 'index map %s' % cs, sample=[c[0] for c in cs])
     # extend
     b = P.body(MX + 'extend')
@@ -259,12 +260,9 @@ def r4(ctx):
     ctx.check('extend|result', rets == ['Matrix::new((Matrix::rows(self) + ROWS), (Matrix::cols(self) + COLS), closure:matrix::{impl#1}::extend::{closure#0})'], 'returns %s' % rets, sample=rets)
     cl = one(P.closures_of(b), 'extend closure')
     cs = closure_cases(cl)
-    want = sorted([('Matrix::index(self, (row, col))', ('(col < original_cols)', '(row < original_rows)')), ('data[(row - original_rows)][(col - original_cols)]', ('(col >= original_cols)', '(row >= original_rows)')), ('0.0', ())])
+    want = sorted([('Matrix::index(self, (row, col))', ('(col < Matrix::cols(self))', '(row < Matrix::rows(self))')),
+                   ('data[(row - Matrix::rows(self))][(col - Matrix::cols(self))]', ('(col >= Matrix::cols(self))', '(row >= Matrix::rows(self))')), ('0.0', ())])
     ctx.check('extend|index-map', cs == want, 'index map %s' % cs, sample=[c[0] for c in cs])
-    for cb, names in ((P.body(MX + 'extend_vec'), ('original_rows',)), (P.body(MX + 'extend'), ('original_rows', 'original_cols'))):
-        for nm in names:
-            v = [S(cb.local_term(i)) for i, l in enumerate(cb.locals) if l.get('name') == nm]
-            ctx.check('%s|%s' % (cb.npath.split('::')[-1], nm), v == ['Matrix::%s(self)' % nm.split('_')[1]], '%s = %s' % (nm, v), sample=v)
     # Index / IndexMut address the same storage cell for (row, col)
     ix = [x for x in P.bodies.values() if x.raw['promoted'] is None and re.search(r'statime_algo::matrix::Matrix<.*> as core::ops::(index::)?Index(Mut)?<\(usize, usize\)>>::index(_mut)?$', x.path)]
     forms = sorted({re.sub(r'index_mut', 'index', re.sub(r'IndexMut', 'Index', v)) for x in ix for _, v in ret_assigns(x)})
